@@ -15,7 +15,8 @@ theorem provenance (w : World) (evs : List WEvent) (r : Record)
       classify t (w.Rc tp).floor = .synchronized ∧
       r.bound = boundF t + phc ∧ r.asOf = TimeSpec.ofNs (w.Mc ta).floor ∧
       r.voidAfter = ⟨r.asOf.sec + 1000, 0⟩ ∧ r.drift = w.rho := by
-  sorry
+  obtain ⟨⟨ta, tq, tp, t, phc, g, hmem, hcls, hb, ha⟩, hv, hd⟩ := (PInv.run w evs).pub r hr hst
+  exact ⟨ta, tq, tp, t, phc, g, hmem, hcls, hb, ha, hv, hd⟩
 
 /-- The arithmetic core: from a valid report at `tq`, a bound that covers it up to `eB`, a growth
     term that covers the drift over the *read* ages up to `1 + eG`, and the clock hypotheses. -/
@@ -26,7 +27,7 @@ theorem containment_core (w : World) (hw : w.Good) (ta tq tr tm : Rat)
     (hgrowth : (w.rho : Rat) * (((w.Mc tm).floor - (w.Mc ta).floor : Int) : Rat) / 1000000000 - 1 - eG ≤ (growth : Rat)) :
     absR ((((w.Rc tr).floor : Int) : Rat) - tr) <
       ((bound + growth : Int) : Rat) + 2 + (w.rho : Rat) / 1000000000 + eB + eG := by
-  sorry
+  exact containment_core_aux w hw ta tq tr tm h1 h2 h3 E eB eG bound growth hvalid hbound hgrowth
 
 /-- End-to-end containment: for every history of events satisfying the hypotheses, every record
     published by it (so also a stale one), and every client query made afterwards whose status is
@@ -41,7 +42,7 @@ theorem containment (w : World) (hw : w.Good) (hrho : w.rho < 1000000000)
     (e l : TimeSpec) (st : Status)
     (hout : clientQuery w r tr tm = .ok e l st) (hst : st ≠ .unknown) :
     (e.toNs : Rat) - sigma w < tr ∧ tr < (l.toNs : Rat) + sigma w := by
-  sorry
+  exact containment_aux w hw hrho evs hev r hr tr tm hrm hafter hR hM e l st hout hst
 
 /-- the oracle evaluated on the implementation is this statement -/
 theorem model_holds (w : World) (hw : w.Good) (hrho : w.rho < 1000000000)
@@ -51,11 +52,33 @@ theorem model_holds (w : World) (hw : w.Good) (hrho : w.rho < 1000000000)
     (hR : 0 ≤ (w.Rc tr).floor ∧ (w.Rc tr).floor < 2147483648000000000)
     (hM : (w.Mc tm).floor < 2147483648000000000) :
     Holds w tr (clientQuery w r tr tm) = true := by
-  sorry
+  cases hout : clientQuery w r tr tm with
+  | ok e l st =>
+    unfold Holds
+    simp only []
+    by_cases hu : st = .unknown
+    · subst hu; rfl
+    · have hne : (st == Status.unknown) = false := by cases st <;> first | rfl | exact absurd rfl hu
+      rw [hne]
+      obtain ⟨c1, c2⟩ := containment w hw hrho evs hev r hr tr tm hrm hafter hR hM e l st hout hu
+      simp only [Bool.false_eq_true, if_false, Bool.and_eq_true, decide_eq_true_eq]
+      exact ⟨c1, c2⟩
+  | malformed => rfl
+  | causality => rfl
+  | panic => rfl
 
 /-- non-vacuity: a world with a constant 100 ns offset and ideal rates satisfies the hypotheses -/
 def exampleWorld : World := ⟨fun t => t + 100, fun t => t, 50000⟩
 theorem exampleWorld_good : exampleWorld.Good := by
-  sorry
+  refine ⟨?_, ?_⟩
+  · intro t1 t2 h
+    exact h
+  · intro t1 t2 h
+    show (t2 + 100 - t2) - (t1 + 100 - t1) ≤ ((50000 : Nat) : Rat) * (t2 - t1) / 1000000000 ∧
+      (t1 + 100 - t1) - (t2 + 100 - t2) ≤ ((50000 : Nat) : Rat) * (t2 - t1) / 1000000000
+    have : (0 : Rat) ≤ ((50000 : Nat) : Rat) * (t2 - t1) / 1000000000 := by
+      have : (0 : Rat) ≤ t2 - t1 := by linarith
+      positivity
+    constructor <;> linarith
 
 end ClockBound.C01
